@@ -111,3 +111,23 @@ func (s NonceSigner) Sign(_ io.Reader, digest []byte, _ crypto.SignerOpts) ([]by
 	}
 	return asn1.Marshal(struct{ R, S *big.Int }{p.R, sv})
 }
+
+// RandCheckedSigner wraps a crypto.Signer the way a hardware-token shim or a wrapper around
+// ecdsa.SignASN1(rand, ...) behaves: it really uses the entropy source it is handed. Sign fails
+// when that source is nil or does not deliver 32 octets; otherwise it delegates to Inner (which may
+// be deterministic). crypto.Signer documents rand as "a source of entropy", and every
+// caller of the standard library passes one.
+type RandCheckedSigner struct{ Inner crypto.Signer }
+
+func (s RandCheckedSigner) Public() crypto.PublicKey { return s.Inner.Public() }
+
+func (s RandCheckedSigner) Sign(rnd io.Reader, digest []byte, opts crypto.SignerOpts) ([]byte, error) {
+	if rnd == nil {
+		return nil, errors.New("ref: Sign was handed a nil entropy source")
+	}
+	var b [32]byte
+	if _, err := io.ReadFull(rnd, b[:]); err != nil {
+		return nil, fmt.Errorf("ref: the entropy source handed to Sign does not deliver: %w", err)
+	}
+	return s.Inner.Sign(rnd, digest, opts)
+}
